@@ -2,7 +2,7 @@
 from oblib import ob
 
 BOUNDS = {
-    "quick": "unmarshalValueAny + CheckEOF over a pooled buffered decoder: all byte strings of length 2-3 (full range) and templates with 2-5 symbolic bytes ([\"?\",\"?\"], {\"?\":?}, [?,[?]], {\"?\":?,\"?\":[?]}, \"\\\\u????\"), 4 Allow* settings for the short inputs; makeString from an arbitrary cache for |b| in {2,3,4,8}. Number values: strconv.ParseFloat is an uninterpreted function of the literal bytes (same bytes => same value), so what is decided is that the literal handed to it is exactly the number token and that its error is propagated.",
+    "quick": "unmarshalValueAny + CheckEOF over a pooled buffered decoder: all byte strings of length 2-3 (full range) and templates with 2-5 symbolic bytes ([\"?\",\"?\"], {\"?\":?}, [?,[?]], {\"?\":?,\"?\":[?]}, \"\\\\u????\"), 4 Allow* settings for the short inputs; makeString from an arbitrary cache for |b| in {2,3,4,8}. Number values: strconv.ParseFloat is an uninterpreted function of the literal bytes (same bytes => same value), so what is decided is that the literal handed to it is exactly the number token and that its error is propagated. Routes: templates with 2-4 symbolic bytes through *any, *any with AllowDuplicateNames, map[string]any, []any, UnmarshalRead, a named empty interface, and *any with a declining UnmarshalFromFunc for *any (accept iff valid, same tree); literals overflowing float64 in arrays/objects/nested are an error on all seven routes.",
     "thorough": "as quick with lengths up to 4 and more templates (nested, wide, intern with 2-byte symbolic strings).",
 }
 ASSUMPTIONS = [
@@ -32,7 +32,7 @@ def obligations(tier):
             L.append(ob("intern/n=%d/samelen=%d" % (n, same), ".", "VerifC03Intern", [n, same], covers=["end"], timeout_ms=60000))
     RT = ['{"?":?}', '[?,{"?":"?"}]', ' {"a":[?,null],"?":{}} ', '{"?":1,"?":2}'] if q else ['{"?":?}', '[?,{"?":"?"}]', ' {"a":[?,null],"?":{}} ', '{"?":1,"?":2}', '[[?],?]', '{"a":{"?":[?]}}', '??', '[1e?,"\\u00??"]']
     for i, t in enumerate(RT):
-        for target in range(5):
+        for target in range(7):
             kind = t.strip()[0]
             cov = ["accept"]
             if (target == 2 and kind != "{") or (target == 3 and kind != "["):
@@ -40,6 +40,6 @@ def obligations(tier):
             L.append(ob("route/t%d/target=%d" % (i, target), ".", "VerifC03Route", [t, target], covers=cov, max_seconds=600))
     # numbers that overflow float64 at every position and through every route: always an error
     for i, t in enumerate(['[1e400]', '{"a":[-1E999,2]}', '[[1.5e309],?]'] if q else ['[1e400]', '{"a":[-1E999,2]}', '[[1.5e309],?]', '{"?":1e400}', '[1,[2,[1e999]]]', ' 1e400 ']):
-        for target in range(5):
+        for target in range(7):
             L.append(ob("overflow/t%d/target=%d" % (i, target), ".", "VerifC03Route", [t, target], max_seconds=600))
     return L
